@@ -261,10 +261,12 @@ class Executor:
 
     def pointee(self, s):
         if s.pointee is None:
-            t = re.sub(r"^(&(mut )?|\*(const|mut) )", "", s.ty)
-            m = re.match(r"^(?:std::rc::|std::sync::|alloc::rc::|alloc::sync::|std::boxed::|std::cell::|cell::|rc::|sync::)?(?:Rc|Arc|Box|Ref|RefMut|MutexGuard|RefCell|Cell)<(?:'_, )?(.*)>$", t)
-            if m:
-                t = m.group(1)
+            t0 = s.ty or "?"
+            t = re.sub(r"^(&(mut )?|\*(const|mut) )", "", t0)
+            if t == t0:   # not a plain reference: strip one smart-pointer / cell layer
+                m = re.match(r"^(?:std::rc::|std::sync::|alloc::rc::|alloc::sync::|std::boxed::|std::cell::|cell::|rc::|sync::)?(?:Rc|Arc|Box|Ref|RefMut|MutexGuard|RefCell|Cell)<(?:'_, )?(.*)>$", t)
+                if m:
+                    t = m.group(1)
             s.pointee = Obj("*" + s.name, None)
             s.pointee.value = self.fresh(t, "*" + s.name)
         return s.pointee
@@ -603,6 +605,17 @@ class Executor:
                 if k != "_name":
                     self.collect_guards(x, out, seen)
 
+    def drop_types(self):
+        """base names of the crate's types that have a Drop impl in the dump"""
+        if not hasattr(self.cfg, "_drop_types"):
+            ts = set()
+            for f in self.cfg.fns.values():
+                m = re.search(r"::drop\(_1: &mut ([\w:]+)", f.header)
+                if m:
+                    ts.add(m.group(1).split("::")[-1])
+            self.cfg._drop_types = ts
+        return self.cfg._drop_types
+
     def do_drop(self, st, fr, place):
         o, p = self.resolve(st, fr, place)
         v = self.read(st, o, p, fr.fn.locals.get(place[1]) if place[0] == "local" else None)
@@ -614,7 +627,8 @@ class Executor:
                 self.event(st, "guard_drop", info[0], [g])
         if isinstance(v, (Sym, Enum, Agg)) and not gs:
             ty = getattr(v, "ty", "")
-            if re.search(r"Rc<|Arc<|Box<|dyn |Sender|Ping|Runnable|Waker|Vec<", ty or ""):
+            if re.search(r"Rc<|Arc<|Box<|dyn |Sender|Ping|Runnable|Waker|Vec<", ty or "") or \
+               enum_base(ty or "") in self.drop_types():
                 self.event(st, "drop", short_ty(ty), [v])
 
     # ------------------------------------------------------------ running
@@ -1022,6 +1036,8 @@ def _cell_of(ex, st, a):
     v = ex.read(st, a.obj, a.path, None) if isinstance(a, Ref) else a
     if isinstance(v, Ref):
         v = ex.read(st, v.obj, v.path, None)
+    if isinstance(v, Sym) and re.match(r"^&(mut )?", v.ty or ""):
+        v = ex.pointee(v).value
     if not isinstance(v, Sym):
         raise Unsupported("RefCell argument is not symbolic: %r" % (v,))
     return v
@@ -1459,7 +1475,17 @@ def _range_next(ex, st, fr, callee, args, dty):
     return outs
 
 
+def _box_new(ex, st, fr, callee, args, dty):
+    """RefCell::new / Cell::new / Rc::new / Arc::new / Box::new: a symbolic owner whose content IS the
+    value passed in (so later reads and writes through borrows see it)"""
+    s_ = Sym(dty, "new%d" % len(st.trace))
+    s_.pointee = Obj("*" + s_.name, args[0])
+    ex.event(st, "new", short_ty(dty or "?"), [args[0]], s_)
+    return [(st, s_)]
+
+
 HANDLERS = [
+    (r"^(std::\w+::)?(RefCell|Cell|Rc|Arc|Box)::<.*>::new$", _box_new),
     (r"^<.* as (Deref|DerefMut)>::deref(_mut)?$", _deref),
     (r"^<.* as (AsRef|AsMut|Borrow|BorrowMut)<.*>>::(as_ref|as_mut|borrow|borrow_mut)$", _deref),
     (r"^RefCell::<.*>::(try_)?borrow(_mut)?$", _borrow),
